@@ -10,6 +10,8 @@ pub struct KBucket { pub nodes: Vec<NodeInfo>, pub max_size: usize }
 pub struct KademliaRoutingTable { pub buckets: Vec<KBucket>, pub node_id: NodeId, pub _k_value: usize }
 /// Error values: the text of `anyhow!(..)` messages is dropped by the extraction.
 pub struct VerifError {}
+/// the engine that owns the routing table behind a tokio RwLock (only its critical sections are extracted)
+pub struct DhtCoreEngine {}
 pub type Result<T> = core::result::Result<T, VerifError>;
 
 // ASSUMED: the derived `PartialEq` of NodeId/DhtKey (newtypes over [u8; 32]) is equality of the bytes.
